@@ -493,22 +493,23 @@ def _gpx_read(path, case):
 
 
 def _gpx_compare(got, tdata, srid):
+    """returns a message when the only thing wrong is that every height of an ENU track came back 0
+    (recorded root cause, raised by the caller after everything else has been compared)"""
     pts, times = tdata["pts"], tdata["t"]
     try:
         _compare_track("gpx", got, srid, pts, times, 8, True, True)
     except Violation as v:
         if v.key == "gpx-height" and srid == "ENU" and got.size() == len(pts) and all(
                 got.getObs(i).position.getZ() == 0 for i in range(len(pts))):
-            try:
-                _compare_track("gpx", got, srid, pts, times, 8, False, True)
-            except Violation:
-                raise v
-            raise Violation("gpx-enu-height-lost", "GPX read with srid ENU: every height comes back 0 (%s)" % v.msg)
+            _compare_track("gpx", got, srid, pts, times, 8, False, True)      # anything else wrong is reported first
+            return v.msg
         raise
+    return None
 
 
 def body_gpx(case):
     srid = case["srid"]
+    lost = None
     with _TmpDir() as d:
         built = []
         for td in case["tracks"]:
@@ -528,7 +529,7 @@ def body_gpx(case):
                 raise Violation("gpx-track-count", "wrote %d tracks to one file, read %r" % (
                     len(built), None if got is None else got.size()))
             for i, td in enumerate(case["tracks"]):
-                _gpx_compare(got[i], td, srid)
+                lost = _gpx_compare(got[i], td, srid) or lost
         else:
             TrackWriter.writeToGpx(arg, path=d, af=case["af"], oneFile=False)
             for td in case["tracks"]:
@@ -539,7 +540,9 @@ def body_gpx(case):
                 if got is None or got.size() != 1:
                     raise Violation("gpx-track-count", "file of one track read as %r tracks" % (
                         None if got is None else got.size()))
-                _gpx_compare(got[0], td, srid)
+                lost = _gpx_compare(got[0], td, srid) or lost
+    if lost:
+        raise Violation("gpx-enu-height-lost", "GPX read with srid ENU: every height comes back 0 (%s)" % lost)
     boundary = any(_near_month_end(t) for td in case["tracks"] for t in td["t"])
     cls = ["srid-" + srid, "one-file" if case["one_file"] else "file-per-track", "tracks-%d" % len(case["tracks"]),
            "api-" + case["api"]]
@@ -703,20 +706,23 @@ def body_wkt(case):
     return {"nt": len(pts) >= 2 and (frac or expo), "cls": cls}
 
 
-RULE = ("csv: Hypothesis over (srid ENU/GEO/ECEF, 1..8 fixes, with/without U and T, every permutation of the column ids, 6 separators, "
-        "h 0/1, 4 time formats, reader entry point readFromFile/readFromCsv, 0..2 extra feature columns); csv_configs: the complete "
-        "product srid x column layout (38 layouts) x separator x h x time format on a fixed 4-fix track with month/year-end stamps; "
-        "gpx: 1..3 tracks, one file / one file per track, srid GEO/ENU; network: 1..5 nodes, 1..6 edges, 3 orientations, 0..4 interior "
-        "vertices, separators ',' ';', h 0/1, ENU/GEO; wkt: toWKT -> parseWkt. "
+RULE = ("csv: Hypothesis over (srid ENU/GEO/ECEF, 1..8 fixes, with/without U and T, every permutation of the column ids, 6 separators "
+        "incl. a two-character one, h 0/1, 4 time formats, reader entry point readFromFile/readFromCsv, writer called with ids or with "
+        "its defaults, 0..2 extra feature columns); csv_configs: the complete product srid x column layout (38 layouts) x separator x h "
+        "x time format on a fixed 4-fix track with month/year-end stamps; gpx: 1..3 tracks of 1..6 fixes, one file / one file per track, "
+        "Track or TrackCollection argument, srid GEO/ENU, readFromFile/readFromGpx; network: 1..5 nodes, 1..6 edges, 3 orientations, "
+        "0..4 interior vertices, loops and parallel edges, separators ',' ';', h 0/1, ENU/GEO; wkt: toWKT -> parseWkt. "
+        "Coordinates: one float in [-1,1] per coordinate decoded per point as 1/8 lattice, millimetre decimals, raw double, |v| >= 1e7, "
+        "rounding tie in the first dropped decimal, or an awkward constant; stamps: month/year-end days, first/last second and ms. "
         "Non-trivial: CSV with a non-identity column permutation or separator != ',' or a stamp within 1 s of a month/year end; GPX with "
         "several tracks or such a stamp; network with a reverse-oriented multi-vertex edge; WKT with >= 2 points and a fractional or "
         "exponent-notation coordinate. Distinct = hash of the case.")
 
 SUBCHECKS = [
-    SubCheck("csv", body_csv, strategy=strat_csv, quick=6000, thorough=160000),
+    SubCheck("csv", body_csv, strategy=strat_csv, quick=6000, thorough=120000, qshards=8),
     SubCheck("csv_configs", body_csv, enum=enum_csv, rule="complete srid x layout x separator x header x time-format product",
              qshards=4),
-    SubCheck("gpx", body_gpx, strategy=strat_gpx, quick=2400, thorough=64000),
-    SubCheck("network", body_net, strategy=strat_net, quick=2400, thorough=64000),
-    SubCheck("wkt", body_wkt, strategy=strat_wkt, quick=2400, thorough=64000),
+    SubCheck("gpx", body_gpx, strategy=strat_gpx, quick=2400, thorough=48000),
+    SubCheck("network", body_net, strategy=strat_net, quick=2400, thorough=48000),
+    SubCheck("wkt", body_wkt, strategy=strat_wkt, quick=2400, thorough=48000),
 ]
